@@ -10,7 +10,7 @@
    directly inside an `if`/`except` does not displace an existing member). *)
 From Coq Require Import List ZArith String Bool Arith.
 From Verif Require Import Lib.Sexp Model.C01_base Gen.C01_tables Gen.C01_dispatch Model.C01_visitor Model.C01_content Model.C01_raw
-  Proofs.C01_visitor Proofs.C01_vis Proofs.C01_content Proofs.C01_raw.
+  Model.C01_layout Proofs.C01_visitor Proofs.C01_vis Proofs.C01_content Proofs.C01_raw Proofs.C01_layout.
 Import ListNotations.
 Open Scope string_scope. Open Scope list_scope. Open Scope nat_scope.
 
@@ -206,3 +206,67 @@ Theorem C01_targets_accepted : forall ts,
   names_scope (map lower_target ts) = None <-> exists t, In t ts /\ get_name t = None.
 Proof. exact targets_accepted. Qed.
 Print Assumptions C01_targets_accepted.
+
+(* ---------------------------------------------------------------------------------------------------------------
+   Source text (Model/C01_layout.v).  A layout tree attaches physical lines to statements: gap lines (blank / comment)
+   in front of an item, decorator lines, header lines (continued over several lines or not), the lines of a simple
+   statement, the parenthesis lines and the constant's lines of a string statement.  [render_list] writes the text;
+   [number_list 1] assigns CPython's line numbers and gives the statements the theorems above speak about; [occ_list]
+   lists every place a span is reported for, with the text it is meant to cut out: for a function / class from the
+   first decorator line, for a property-attribute from the `def` line, for a statement its own lines, for a docstring
+   the lines of the string constant; each to the last line of the item. *)
+
+(* Geometry, for every layout at any depth, sitting anywhere in a larger text: slicing by the reported span returns
+   exactly that text. *)
+Theorem C01_slice_reported_span : forall items pre post o,
+  In o (occ_list (List.length pre + 1) items) ->
+  slice (pre ++ render_list items ++ post) (o_first o) (o_last o) = o_text o.
+Proof. exact slice_reported_span. Qed.
+Print Assumptions C01_slice_reported_span.
+
+(* Composition with the visitor, module level: the span reported for member n (kind k) is the span of an item that
+   defines that very name with that kind ([tag_names]), slicing the rendered source by it returns that item's text,
+   and slicing by the reported docstring span returns the lines of the string constant ([span_cuts]). *)
+Theorem C01_member_span_slices : forall items mname r n i,
+  run_visit mname (number_list 1 items) = Ok r -> lookup n (minfo (r_members r)) = Some i ->
+  span_cuts (render_list items) (occ_list 1 items) n i.
+Proof. exact module_spans_slice. Qed.
+Print Assumptions C01_member_span_slices.
+
+(* ... and for the members of every class item, wherever it is evaluated and wherever its text sits. *)
+Theorem C01_member_span_slices_nested : forall g pk nd start gap decos header name body own up pre post,
+  List.length pre + 1 = start ->
+  exists o, lookup name (fmembers (l_own (sem_stmt g pk nd (number start (LCls gap decos header name body)) own up))) = Some o /\
+    forall n i, lookup n (minfo (omembers o)) = Some i ->
+      span_cuts (pre ++ render (LCls gap decos header name body) ++ post) (occ start (LCls gap decos header name body)) n i.
+Proof. exact class_spans_slice. Qed.
+Print Assumptions C01_member_span_slices_nested.
+
+(* Extending the exports.  `__all__ += x`, `__all__.extend(x)` and `__all__.append(x)` (visit_augassign, visit_expr with
+   the regenerated [all_receiver] / [all_methods]) lower to one and the same statement; calls of another method, on
+   another receiver or without argument are no statement at all. *)
+Theorem C01_all_extension_forms : forall items,
+  lower (RNode "AugAssign" (PAug true items) []) = Some (SAugAll items) /\
+  lower (RNode "Expr" (PCall "__all__" "extend" true items) []) = Some (SAugAll items) /\
+  lower (RNode "Expr" (PCall "__all__" "append" true items) []) = Some (SAugAll items) /\
+  lower (RNode "Expr" (PCall "__all__" "extend" false items) []) = Some SOther /\
+  lower (RNode "Expr" (PCall "__all__" "remove" true items) []) = Some SOther /\
+  lower (RNode "Expr" (PCall "" "extend" true items) []) = Some SOther /\
+  lower (RNode "Expr" (PCall "other" "extend" true items) []) = Some SOther.
+Proof. exact all_extension_forms. Qed.
+Print Assumptions C01_all_extension_forms.
+
+(* Its effect, wherever it is evaluated: the items are appended to the exports of a MODULE that already has an exports
+   list, provided every item is a string or a name; in a class body, in an __init__ body, before any `__all__ = ...`,
+   or with another constant among the items, nothing changes; members, imports, events, errors are never touched. *)
+Theorem C01_all_extension_effect : forall items g pk nd own up,
+  let r := sem_stmt g pk nd (SAugAll items) own up in
+  l_up r = up /\ l_events r = [] /\ l_err r = None /\
+  fmembers (l_own r) = fmembers own /\ fimports (l_own r) = fimports own /\
+  fexports (l_own r) =
+    match fkind own, fexports own with
+    | InModule, Some ex => if items_ok items then Some (ex ++ items) else Some ex
+    | _, e => e
+    end.
+Proof. exact all_extension_effect. Qed.
+Print Assumptions C01_all_extension_effect.
